@@ -25,6 +25,7 @@ import (
 	"github.com/apache/skywalking-banyandb/api/common"
 	databasev1 "github.com/apache/skywalking-banyandb/api/proto/banyandb/database/v1"
 	modelv1 "github.com/apache/skywalking-banyandb/api/proto/banyandb/model/v1"
+	"github.com/apache/skywalking-banyandb/pkg/convert"
 	"github.com/apache/skywalking-banyandb/pkg/index"
 	"github.com/apache/skywalking-banyandb/pkg/index/posting"
 	"github.com/apache/skywalking-banyandb/pkg/query/logical"
@@ -189,8 +190,12 @@ func (tef *traceEqFilter) Execute(_ index.GetSearcher, _ common.SeriesID, _ *ind
 func (tef *traceEqFilter) ShouldSkip(tagFilters index.FilterOp) (bool, error) {
 	// Use the parsed expression to get the tag value and invoke tagFilters.Eq
 	if tef.expr != nil {
-		tagValue := tef.expr.String()
-		return !tagFilters.Eq(tef.tagName, tagValue), nil
+		// The block filter holds values in their stored form (an int is 8 bytes, not its decimal text).
+		bb := tef.expr.Bytes()
+		if len(bb) != 1 {
+			return false, nil
+		}
+		return !tagFilters.Eq(tef.tagName, convert.BytesToString(bb[0])), nil
 	}
 	return false, nil
 }
@@ -270,10 +275,11 @@ func (thf *traceHavingFilter) Execute(_ index.GetSearcher, _ common.SeriesID, _ 
 func (thf *traceHavingFilter) ShouldSkip(tagFilters index.FilterOp) (bool, error) {
 	// Use the parsed expression to get the tag values and invoke tagFilters.Having
 	if thf.expr != nil {
-		subExprs := thf.expr.SubExprs()
-		tagValues := make([]string, len(subExprs))
-		for i, subExpr := range subExprs {
-			tagValues[i] = subExpr.String()
+		// Values in their stored form, as the block filter holds them.
+		bb := thf.expr.Bytes()
+		tagValues := make([]string, len(bb))
+		for i := range bb {
+			tagValues[i] = convert.BytesToString(bb[i])
 		}
 		return !tagFilters.Having(thf.tagName, tagValues), nil
 	}
